@@ -61,6 +61,50 @@ pub fn adversarial_regs(rng: &mut Rng) -> Regs {
     r
 }
 
+/// Registers changed so that the first memory operand (bracketed or data label) of `ins` lies on the end of the
+/// 1 MB space: its first byte at FFFFFh, FFFFEh, 00000h (segment * 16 + offset = 100000h) or 00001h.  A base or
+/// index register is nudged to give the offset the right low nibble; the operand's segment register (override,
+/// SS for BP-based forms, DS otherwise) is then set to match.  Left alone when that is impossible.
+pub fn edge_place(ins: &Ins, regs: &Regs, k: u64) -> Regs {
+    let opnds: Vec<&Opnd> = match ins {
+        Ins::BinArith { dst, src, .. } | Ins::Logic { dst, src, .. } | Ins::Mov { dst, src, .. } | Ins::Lea { dst, src } => vec![dst, src],
+        Ins::Xchg { a, b, .. } => vec![a, b],
+        Ins::Not { dst, .. } | Ins::Shift { dst, .. } | Ins::UnArith { dst, .. } | Ins::Pop { dst } => vec![dst],
+        Ins::Push { src } => vec![src],
+        _ => vec![],
+    };
+    let mut r = *regs;
+    let target: u32 = [0xFFFFFu32, 0xFFFFE, 0x100000, 0x100001][(k % 4) as usize];
+    for o in opnds {
+        let (segreg, off): (&str, u32) = match o {
+            Opnd::Mem { seg, base, index, disp, .. } => {
+                let sr: &str = if !seg.is_empty() { seg } else if *base == "bp" { "ss" } else { "ds" };
+                let mut off = (*disp as i64).rem_euclid(65536) as u32;
+                if !base.is_empty() { off = (off + r.get(base) as u32) % 65536; }
+                if !index.is_empty() { off = (off + r.get(index) as u32) % 65536; }
+                // nudge a register of the operand so that the offset gets the low nibble of the target
+                let want = target % 16;
+                let delta = (want + 16 - off % 16) % 16;
+                let tweak: &str = if !index.is_empty() { index } else { base };
+                if !tweak.is_empty() && delta != 0 {
+                    r.set(tweak, r.get(tweak).wrapping_add(delta as u16));
+                    off = (off + delta) % 65536;
+                }
+                (sr, off)
+            }
+            Opnd::Label { off, .. } => ("ds", *off),
+            _ => continue,
+        };
+        // a label's offset cannot be nudged: take the target its low nibble allows
+        let target = if matches!(o, Opnd::Label { .. }) { match off % 16 { 15 => 0xFFFFF, 14 => 0xFFFFE, 0 => 0x100000, 1 => 0x100001, _ => target } } else { target };
+        if target >= off && (target - off) % 16 == 0 && (target - off) / 16 <= 0xFFFF {
+            r.set(segreg, ((target - off) / 16) as u16);
+        }
+        break;
+    }
+    r
+}
+
 struct Batch<'a> {
     asm: &'a Asm,
     mach: &'a mut Mach,
@@ -75,6 +119,11 @@ impl<'a> Batch<'a> {
     fn one(&mut self, key: &str, ins: &Ins, sp: &Spelling, regs: &Regs, flags: u16, stack: &[usize]) {
         let seed = self.seed();
         self.n += 1;
+        // every fourth case: move the memory operand onto the end of the 1 MB space (see edge_place)
+        let placed;
+        // (data-label operands, whose offset cannot be nudged, every second case)
+        let has_label = format!("{:?}", ins).contains("Label {");
+        let regs = if self.n % 4 == 0 || (has_label && self.n % 2 == 0) { placed = edge_place(ins, regs, self.n / 2); &placed } else { regs };
         let evs = run_one(self.asm, self.mach, ins, sp, regs, flags, seed, &[], stack);
         self.sh.count(key, 1);
         self.sh.unit(&evs);
@@ -635,6 +684,40 @@ pub fn gen_c07(asm: &Asm, mach: &mut Mach, rng: &mut Rng, sh: &mut Shards, thoro
                         }
                         let evs = run_string(asm, mach, &ins, &rand_spelling(rng), &regs, flags, seed, &memset);
                         sh.count(&format!("string:{}:{}:{}", if repmn.is_empty() { "-" } else { repmn }, op, w), 1);
+                        sh.count("string-invocations", (evs.len().saturating_sub(1)) as u64);
+                        sh.unit(&evs);
+                    }
+                }
+            }
+        }
+    }
+    // source and destination overlapping by -2 .. 2 bytes, with the source element on every position around the end
+    // of the 1 MB space and around the end of the segment, both directions, plain and repeated
+    for (op, rep, repmn) in [("movs", "", ""), ("movs", "rep", "rep"), ("cmps", "", ""), ("cmps", "repz", "repe")] {
+        for w in [8u8, 16u8] {
+            for srcpos in [0xFFFFDu32, 0xFFFFE, 0xFFFFF, 0x100000, 0x100001, 0x2FFFE, 0x2FFFF] {
+                for dist in [-2i32, -1, 0, 1, 2] {
+                    for df in [0u16, 1] {
+                        let mut regs = stress_regs(rng);
+                        // the source at srcpos through (DS, SI), the destination dist bytes further through (ES, DI)
+                        let (ds, si) = if srcpos >= 0xF0000 { (((srcpos - 0xFFF0) / 16) as u16, 0u16) } else { (0x2000u16, (srcpos - 0x20000) as u16) };
+                        let si = if srcpos >= 0xF0000 { (srcpos - ds as u32 * 16) as u16 } else { si };
+                        regs.ds = ds;
+                        regs.si = si;
+                        let dstpos = (srcpos as i64 + dist as i64) as u32;
+                        let es = if srcpos >= 0xF0000 { *rng.pick(&[ds, ds.wrapping_sub(1), 0xF000u16]) } else { 0x2000 };
+                        regs.es = es;
+                        regs.di = (dstpos.wrapping_sub(es as u32 * 16) & 0xFFFF) as u16;
+                        regs.cx = if rep.is_empty() { rng.u16() } else { 1 + rng.below(3) as u16 };
+                        let flags = (rng.u16() & !0x0400) | (df << 10);
+                        // distinct bytes around both places
+                        let mut memset: Vec<(usize, u8)> = Vec::new();
+                        for j in 0..12usize {
+                            memset.push((((srcpos as usize) + MB - 6 + j) % MB, 0x10 + j as u8 * 7));
+                        }
+                        let evs = run_string(asm, mach, &Ins::Str { op, w, rep, repmn }, &rand_spelling(rng), &regs, flags, (n % 251) as i64, &memset);
+                        n += 1;
+                        sh.count("string-overlap-at-wrap", 1);
                         sh.count("string-invocations", (evs.len().saturating_sub(1)) as u64);
                         sh.unit(&evs);
                     }
